@@ -175,7 +175,8 @@ class SimFS:
                 self.outside.append((kind, path))
         if self.record_calls:
             self.calls.append((k, kind, path,
-                               self._site() if self.track_sites else ""))
+                               self._site() if self.track_sites else "",
+                               detail))
         act = self.plan.get(k)
         if act is None:
             return None
@@ -410,6 +411,13 @@ class SimFS:
         return None if n is None else bytes(n.data)
 
 
+def _amount(k, n):
+    """Absolute byte count, or (negative) fraction of the request."""
+    if k < 0:
+        return int(n * -k)
+    return int(k)
+
+
 def _excluded(p, exclude):
     return any(p == e or p.startswith(e + "/") for e in exclude)
 
@@ -478,7 +486,7 @@ class SimRaw(io.RawIOBase):
         n = max(0, min(want, len(data) - self.pos))
         if n > 1:
             if act is not None and act[0] == "short":
-                n = max(1, min(n, act[1]))
+                n = max(1, min(n, _amount(act[1], n)))
             elif self.fs.short_every and (
                     self.fs.total_calls % self.fs.short_every == 0):
                 n = max(1, n // 2)
@@ -497,11 +505,13 @@ class SimRaw(io.RawIOBase):
         if not self._w:
             raise io.UnsupportedOperation("not writable")
         fs = self.fs
-        act = fs._call("write", self.path, n)
+        if self._append:
+            self.pos = len(self.node.data)
+        act = fs._call("write", self.path, (n, self.pos))
         limit = n
         if n > 1:
             if act is not None and act[0] in ("short", "torn"):
-                limit = max(1, min(n, act[1]))
+                limit = max(1, min(n, _amount(act[1], n)))
             elif fs.short_every and fs.total_calls % fs.short_every == 0:
                 limit = max(1, n // 2)
                 fs._fire("benign_short_write")
